@@ -401,11 +401,20 @@ func (c *Client) ReadDirContext(ctx context.Context, p string) ([]os.FileInfo, e
 			if sid != id {
 				return nil, &unexpectedIDErr{id, sid}
 			}
-			count, data := unmarshalUint32(data)
+			count, data, err := unmarshalUint32Safe(data)
+			if err != nil {
+				return nil, err
+			}
 			for i := uint32(0); i < count; i++ {
 				var filename string
-				filename, data = unmarshalString(data)
-				_, data = unmarshalString(data) // discard longname
+				filename, data, err = unmarshalStringSafe(data)
+				if err != nil {
+					return nil, err
+				}
+				_, data, err = unmarshalStringSafe(data) // discard longname
+				if err != nil {
+					return nil, err
+				}
 				var attr *FileStat
 				attr, data, err = unmarshalAttrs(data)
 				if err != nil {
@@ -445,10 +454,13 @@ func (c *Client) opendir(ctx context.Context, path string) (string, error) {
 		if sid != id {
 			return "", &unexpectedIDErr{id, sid}
 		}
-		handle, _ := unmarshalString(data)
+		handle, _, err := unmarshalStringSafe(data)
+		if err != nil {
+			return "", err
+		}
 		return handle, nil
 	case sshFxpStatus:
-		return "", normaliseError(unmarshalStatus(id, data))
+		return "", statusReplyError(id, data, sshFxpHandle)
 	default:
 		return "", unimplementedPacketErr(typ)
 	}
@@ -488,7 +500,7 @@ func (c *Client) Lstat(p string) (os.FileInfo, error) {
 		}
 		return fileInfoFromStat(attr, path.Base(p)), nil
 	case sshFxpStatus:
-		return nil, normaliseError(unmarshalStatus(id, data))
+		return nil, statusReplyError(id, data, sshFxpAttrs)
 	default:
 		return nil, unimplementedPacketErr(typ)
 	}
@@ -510,14 +522,20 @@ func (c *Client) ReadLink(p string) (string, error) {
 		if sid != id {
 			return "", &unexpectedIDErr{id, sid}
 		}
-		count, data := unmarshalUint32(data)
+		count, data, err := unmarshalUint32Safe(data)
+		if err != nil {
+			return "", err
+		}
 		if count != 1 {
 			return "", unexpectedCount(1, count)
 		}
-		filename, _ := unmarshalString(data) // ignore dummy attributes
+		filename, _, err := unmarshalStringSafe(data) // ignore dummy attributes
+		if err != nil {
+			return "", err
+		}
 		return filename, nil
 	case sshFxpStatus:
-		return "", normaliseError(unmarshalStatus(id, data))
+		return "", statusReplyError(id, data, sshFxpName)
 	default:
 		return "", unimplementedPacketErr(typ)
 	}
@@ -681,10 +699,13 @@ func (c *Client) open(path string, pflags uint32) (*File, error) {
 		if sid != id {
 			return nil, &unexpectedIDErr{id, sid}
 		}
-		handle, _ := unmarshalString(data)
+		handle, _, err := unmarshalStringSafe(data)
+		if err != nil {
+			return nil, err
+		}
 		return &File{c: c, path: path, handle: handle}, nil
 	case sshFxpStatus:
-		return nil, normaliseError(unmarshalStatus(id, data))
+		return nil, statusReplyError(id, data, sshFxpHandle)
 	default:
 		return nil, unimplementedPacketErr(typ)
 	}
@@ -728,7 +749,7 @@ func (c *Client) stat(path string) (*FileStat, error) {
 		attr, _, err := unmarshalAttrs(data)
 		return attr, err
 	case sshFxpStatus:
-		return nil, normaliseError(unmarshalStatus(id, data))
+		return nil, statusReplyError(id, data, sshFxpAttrs)
 	default:
 		return nil, unimplementedPacketErr(typ)
 	}
@@ -752,7 +773,7 @@ func (c *Client) fstat(handle string) (*FileStat, error) {
 		attr, _, err := unmarshalAttrs(data)
 		return attr, err
 	case sshFxpStatus:
-		return nil, normaliseError(unmarshalStatus(id, data))
+		return nil, statusReplyError(id, data, sshFxpAttrs)
 	default:
 		return nil, unimplementedPacketErr(typ)
 	}
@@ -786,7 +807,7 @@ func (c *Client) StatVFS(path string) (*StatVFS, error) {
 
 	// the resquest failed
 	case sshFxpStatus:
-		return nil, normaliseError(unmarshalStatus(id, data))
+		return nil, statusReplyError(id, data, sshFxpExtendedReply)
 
 	default:
 		return nil, unimplementedPacketErr(typ)
@@ -946,14 +967,20 @@ func (c *Client) RealPath(path string) (string, error) {
 		if sid != id {
 			return "", &unexpectedIDErr{id, sid}
 		}
-		count, data := unmarshalUint32(data)
+		count, data, err := unmarshalUint32Safe(data)
+		if err != nil {
+			return "", err
+		}
 		if count != 1 {
 			return "", unexpectedCount(1, count)
 		}
-		filename, _ := unmarshalString(data) // ignore attributes
+		filename, _, err := unmarshalStringSafe(data) // ignore attributes
+		if err != nil {
+			return "", err
+		}
 		return filename, nil
 	case sshFxpStatus:
-		return "", normaliseError(unmarshalStatus(id, data))
+		return "", statusReplyError(id, data, sshFxpName)
 	default:
 		return "", unimplementedPacketErr(typ)
 	}
@@ -1127,6 +1154,20 @@ func (f *File) Read(b []byte) (int, error) {
 	return n, err
 }
 
+// unmarshalDataPayload returns the payload of an SSH_FXP_DATA packet,
+// after its id has been consumed, or errShortPacket if the declared length
+// exceeds the bytes received.
+func unmarshalDataPayload(data []byte) ([]byte, error) {
+	l, data, err := unmarshalUint32Safe(data)
+	if err != nil {
+		return nil, err
+	}
+	if uint64(l) > uint64(len(data)) {
+		return nil, errShortPacket
+	}
+	return data[:l], nil
+}
+
 // readChunkAt attempts to read the whole entire length of the buffer from the file starting at the offset.
 // It will continue progressively reading into the buffer until it fills the whole buffer, or an error occurs.
 func (f *File) readChunkAt(ch chan result, b []byte, off int64) (n int, err error) {
@@ -1152,8 +1193,11 @@ func (f *File) readChunkAt(ch chan result, b []byte, off int64) (n int, err erro
 				return n, &unexpectedIDErr{id, sid}
 			}
 
-			l, data := unmarshalUint32(data)
-			n += copy(b[n:], data[:l])
+			data, err := unmarshalDataPayload(data)
+			if err != nil {
+				return n, err
+			}
+			n += copy(b[n:], data)
 
 		default:
 			return n, unimplementedPacketErr(typ)
@@ -1298,14 +1342,16 @@ func (f *File) readAt(b []byte, off int64) (int, error) {
 							err = &unexpectedIDErr{packet.id, sid}
 
 						} else {
-							l, data := unmarshalUint32(data)
-							n = copy(packet.b, data[:l])
+							data, err = unmarshalDataPayload(data)
+							if err == nil {
+								n = copy(packet.b, data)
 
-							// For normal disk files, it is guaranteed that this will read
-							// the specified number of bytes, or up to end of file.
-							// This implies, if we have a short read, that means EOF.
-							if n < len(packet.b) {
-								err = io.EOF
+								// For normal disk files, it is guaranteed that this will read
+								// the specified number of bytes, or up to end of file.
+								// This implies, if we have a short read, that means EOF.
+								if n < len(packet.b) {
+									err = io.EOF
+								}
 							}
 						}
 
@@ -1527,10 +1573,12 @@ func (f *File) WriteTo(w io.Writer) (written int64, err error) {
 							err = &unexpectedIDErr{readWork.id, sid}
 
 						} else {
-							l, data := unmarshalUint32(data)
-							b = pool.Get()[:l]
-							n = copy(b, data[:l])
-							b = b[:n]
+							data, err = unmarshalDataPayload(data)
+							if err == nil {
+								b = pool.Get()
+								n = copy(b, data)
+								b = b[:n]
+							}
 						}
 
 					default:
@@ -2224,6 +2272,17 @@ func (f *File) Sync() error {
 	default:
 		return &unexpectedPacketErr{want: sshFxpStatus, got: typ}
 	}
+}
+
+// statusReplyError returns the error carried by an SSH_FXP_STATUS reply to a
+// request whose successful reply has type want. An OK status is not a valid
+// reply to such a request, so it is reported as an unexpected packet instead
+// of being mistaken for success with no value.
+func statusReplyError(id uint32, data []byte, want fxp) error {
+	if err := normaliseError(unmarshalStatus(id, data)); err != nil {
+		return err
+	}
+	return &unexpectedPacketErr{want: want, got: sshFxpStatus}
 }
 
 // normaliseError normalises an error into a more standard form that can be
